@@ -146,6 +146,9 @@ func (verify *VerifyServerController) handlePairVerifyFinish(in util.Container) 
 	verify.step = VerifyStepFinishResponse
 
 	data := in.GetBytes(TagEncryptedData)
+	if len(data) < 16 {
+		return nil, fmt.Errorf("encrypted data is too short")
+	}
 	message := data[:(len(data) - 16)]
 	var mac [16]byte
 	copy(mac[:], data[len(message):]) // 16 byte (MAC)
@@ -159,7 +162,7 @@ func (verify *VerifyServerController) handlePairVerifyFinish(in util.Container) 
 
 	if err != nil {
 		verify.reset()
-		log.Info.Panic(err)
+		log.Info.Println(err)
 		out.SetByte(TagErrCode, ErrCodeAuthenticationFailed.Byte()) // return error 2
 	} else {
 		in, err := util.NewTLV8ContainerFromReader(bytes.NewBuffer(decryptedBytes))
